@@ -23,6 +23,7 @@ RA_TOP = math.nextafter(360.0, 0.0)
 BOUNDARY_RA = [0.0, RA_TOP, 60.0, 120.0, 180.0, 240.0, 300.0]
 BOUNDARY_CLASSES = ('allsky', 'polar', 'rings')          # already all around the sky: moving one point changes no grid size
 # dense class: number of positions in ONE chunk, around implementation-typical block sizes
+WIDE_LENGTHS = [90.0, 120.0, 170.0, 179.9, 180.0, 180.1, 200.0, 270.0, 359.0, 360.0]
 DENSE_SIZES = [2 ** k + d for k in (8, 9, 10) for d in (-1, 0, 1)] + [640, 768, 900, 1100]
 DENSE_QUICK = [640, 1025, 513, 257, 768, 511]
 CS_FACT = [0.5, 2.0, 4.0, 4.0, 4.5, 8.0, 32.0, 64.0]
@@ -112,7 +113,7 @@ class C05(Check):
                    'pairs within max(1e-9 relative, 1e-11 deg) of L changes the partition',
                    'the mutual consistency of the four arrays is checked on every case, decided or not',
                    'the order in which next[] visits the members of a group is not prescribed by the property']
-    REQUIRED_COUNTERS = ('dense_cases', 'dense_cases_above_512_in_one_chunk', 'boundary_ra_points', 'ra360_calls', 'flavour_calls', 'flavour_int_calls', 'flavour_single_precision_calls', 'flavour_layout_calls',
+    REQUIRED_COUNTERS = ('wide_link_cases', 'wide_link_ge_180_cases', 'wide_link_over_16_in_one_chunk', 'dense_cases', 'dense_cases_above_512_in_one_chunk', 'boundary_ra_points', 'ra360_calls', 'flavour_calls', 'flavour_int_calls', 'flavour_single_precision_calls', 'flavour_layout_calls',
                          'flavour_args_unchanged_checks', 'flavour_multi_member_groups', 'canary_sequences', 'canary_inputs_judged', 'equal_ra_cases', 'equal_dec_cases', 'groups_spanning_chunks', 'undecided_cases', 'band_pairs_harmless', 'replicated_points', 'chunk_fof_calls', 'perm_variants',
                          'chunksize_variants', 'enforced_minimum_chunksize', 'near_threshold_links', 'seam_cases',
                          'polar_slice_cases', 'multi_member_groups', 'lattice_cases')
@@ -189,6 +190,7 @@ class C05(Check):
             'flavours': 400 if q else 8000,
             'dense': len(DENSE_QUICK) if q else 4 * len(DENSE_SIZES),
             'ra360': 60 if q else 1500,
+            'wide_links': 160 if q else 3000,
             'degenerate': 240 if q else 5000,
         }
 
@@ -272,6 +274,41 @@ class C05(Check):
         ra, dec = self._shuffle(rng, ra, dec)
         case = {'L': L, 'cs': rng.choice([10.0, 30.0]), 'ra': ra, 'dec': dec}
         case['variants'] = [{'p': rng.getrandbits(32), 'cs': case['cs']}] if n <= 700 else []
+        return case
+
+    def gen_wide_links(self, rng, nr, i):
+        """the large end of the linking length: 30-360 deg (90, 120, 170, 179.9, 180, 180.1, 200, 270, 359, 360 and random)
+        with more than 16 positions per chunk: two opposite clumps, a clump and far outliers, all-sky scatter, exactly and
+        nearly antipodal pairs.  Separations never exceed 180 deg, so from 180.1 deg on everything is one group."""
+        L = rng.choice(WIDE_LENGTHS) if rng.random() < 0.7 else rng.uniform(30.0, 200.0)
+        kind = rng.choice(['opposite', 'opposite', 'clump_far', 'allsky', 'allsky'])
+        if kind == 'allsky':
+            n = rng.randint(17, 60)
+            ra = nr.uniform(0, 360, n).tolist()
+            dec = np.clip(np.degrees(np.arcsin(nr.uniform(-1, 1, n))), -DECLIM, DECLIM).tolist()
+        else:
+            a0, d0 = rng.uniform(0, 360), rng.uniform(-70, 70)
+            ra, dec = cluster(nr, rng.randint(9, 25), a0, d0, rng.choice([0.5, 2.0, 5.0]))
+            if kind == 'opposite':
+                t = rng.choice([0.0, 0.0, rng.uniform(0, 30)])
+                a1, d1 = R.destination(a0, d0, rng.uniform(0, 360), 180.0 - t)
+                r2, c2 = cluster(nr, rng.randint(9, 25), a1, clipdec(d1), rng.choice([0.5, 2.0, 5.0]))
+                ra += r2
+                dec += c2
+            else:
+                for _ in range(rng.randint(1, 8)):
+                    a1, d1 = R.destination(a0, d0, rng.uniform(0, 360), rng.choice([L * rng.uniform(0.9, 1.1), rng.uniform(60, 180)]) % 180.0001)
+                    ra.append(a1)
+                    dec.append(clipdec(d1))
+        for _ in range(rng.randint(0, 2)):
+            j = rng.randrange(len(ra))
+            a1, d1 = R.destination(ra[j], dec[j], rng.uniform(0, 360), 180.0 - rng.choice([0.0, 10.0 ** -rng.randint(1, 8)]))
+            ra.append(a1)
+            dec.append(clipdec(d1))
+        ra, dec = self._shuffle(rng, ra, dec)
+        cs = None if rng.random() < 0.6 else L * rng.choice([4.0, 4.0, 8.0, 1.0])
+        case = {'L': L, 'cs': cs, 'ra': ra, 'dec': dec, 'kind': kind}
+        case['variants'] = [{'p': rng.getrandbits(32), 'cs': cs}, {'p': None, 'cs': L * rng.uniform(4.0, 10.0)}]
         return case
 
     def gen_ra360(self, rng, nr, i):
@@ -752,6 +789,13 @@ class C05(Check):
             same = all(np.array_equal(np.asarray(x), np.asarray(y)) for x, y in zip(r0, r1))
             out.expect(same, 'ra360-same-as-0', 'positions %s written as RA 360.0 instead of 0.0 are grouped differently (cs=%r)'
                        % (case['ra360'], case['cs']), ingroup_ra0=r0[0], ingroup_ra360=r1[0])
+        if case.get('cls') == 'wide_links':
+            out.count('wide_link_cases')
+            if L >= 180.0:
+                out.count('wide_link_ge_180_cases')
+            c = self._chunk
+            if c is not None and max((len(cell) for row in c.chunkList for cell in row), default=0) > 16:
+                out.count('wide_link_over_16_in_one_chunk')
         if case.get('cls') == 'dense':
             c = self._chunk
             pop = max((len(cell) for row in c.chunkList for cell in row), default=0) if c is not None else 0
